@@ -1249,7 +1249,51 @@ fn zone_any() -> BoxedStrategy<ZoneSel> {
     .boxed()
 }
 
+/// receivers on the first / last representable days whose update lands exactly on, or one unit beyond, a limit of
+/// the type (the first day's midnight is outside the date-time limits although the date and the time are each valid)
+fn merge_case_at_limits() -> BoxedStrategy<MergeCase> {
+    use crate::refm::civil::{from_days, MAX_DAY, MIN_DAY};
+    let day = prop_oneof![Just(MIN_DAY), Just(MIN_DAY + 1), Just(MAX_DAY), Just(MAX_DAY - 1)];
+    let ns = prop_oneof![Just(1i128), Just(0i128), Just(1_000i128), Just(1_000_000i128), Just(NS_PER_DAY - 1), Just(3_600_000_000_000i128), 0i128..NS_PER_DAY];
+    (day, ns, 0u8..6, -1i64..=1, ov_any(), proptest::sample::select(vec![Ty::DateTime, Ty::DateTime, Ty::Date]))
+        .prop_map(|(recv_day, recv_ns, shape, dd, ov, ty)| {
+            let recv_ns = if recv_day == MIN_DAY && recv_ns == 0 { 1 } else { recv_ns };
+            let mut pd = PD::default();
+            let mut pt = PT::default();
+            // zero the lowest non-zero time field(s) / move the day by one
+            match shape {
+                0 => pt.nanosecond = Some(0),
+                1 => {
+                    pt.nanosecond = Some(0);
+                    pt.microsecond = Some(0);
+                    pt.millisecond = Some(0);
+                }
+                2 => {
+                    pt = PT { hour: Some(0), minute: Some(0), second: Some(0), millisecond: Some(0), microsecond: Some(0), nanosecond: Some(0) };
+                }
+                3 => {
+                    let (_, _, d) = from_days((recv_day + dd).clamp(MIN_DAY - 1, MAX_DAY + 1));
+                    pd.day = Some(d);
+                }
+                4 => {
+                    let (_, _, d) = from_days((recv_day + dd).clamp(MIN_DAY - 1, MAX_DAY + 1));
+                    pd.day = Some(d);
+                    pt = PT { hour: Some(0), minute: Some(0), second: Some(0), millisecond: Some(0), microsecond: Some(0), nanosecond: Some(0) };
+                }
+                _ => pt = PT { hour: Some(23), minute: Some(59), second: Some(59), millisecond: Some(999), microsecond: Some(999), nanosecond: Some(999) },
+            }
+            let (recv_ns, pt) = if ty == Ty::Date { (0, PT::default()) } else { (recv_ns, pt) };
+            let pd = if ty == Ty::Date && pd.day.is_none() { PD { day: Some(from_days(recv_day + dd).2), ..PD::default() } } else { pd };
+            MergeCase { ty, op: Op::With, recv_day, recv_ns, pd, pt, ov, zone: ZoneSel::UtcNamed, offset_given: false }
+        })
+        .boxed()
+}
+
 pub fn merge_case() -> BoxedStrategy<MergeCase> {
+    prop_oneof![19 => merge_case_general(), 1 => merge_case_at_limits()].boxed()
+}
+
+fn merge_case_general() -> BoxedStrategy<MergeCase> {
     let ty_op = proptest::sample::select(vec![
         (Ty::Date, Op::With),
         (Ty::Date, Op::With),
